@@ -12,7 +12,8 @@ import SioVerif.Lemmas.SioCodec
   namespace (C05) and event name → handler invocation.
   This file proves the composition of the carriage with the reassembly (`end_to_end_polling`, `end_to_end_websocket`): the sender's
   blocks, carried as any partition into long-polling payloads / as WebSocket messages, come out as exactly one packet per block, in
-  order; the pieces are:
+  order; and of the send queue with the reassembly (`emits_become_packets`): for every interleaving of emits by any number of
+  goroutines with the sender's takes, the stream reassembles into one packet per emit; the pieces are:
   * `carriage_websocket`, `carriage_polling` : the stream of frames that leaves the send queue is
      the stream of frames that reaches the decoder, for every partition into poll responses / POSTs;
   * `control_packets_invisible` : PING/PONG/NOOP/… interleaved anywhere never reach the decoder;
@@ -211,6 +212,61 @@ theorem end_to_end_websocket (J : Sio.Oracle) (maxAtt : Nat) (blocks : List (Lis
       (fun o => match o with | .ok p => some p.data | _ => none)) = (none, blocks.length) := by
   rw [carriage_websocket, okData_map, hfr]
   exact blocks_finish_in_order J maxAtt blocks hwf
+
+/-! ### composition with the send queue: from interleaved emits to packets -/
+
+/-- the send queue of C02 over byte frames: an emit appends all frames of its packet in one step, the sender takes everything queued -/
+structure SendQ where
+  queued : List Bytes := []
+  sent : List Bytes := []
+  emitted : List (List Bytes) := []   -- history: blocks in the order of their add steps
+
+inductive SendOp where
+  | emit (block : List Bytes)
+  | take
+
+def sendStep (s : SendQ) : SendOp → SendQ
+  | .emit b => { s with queued := s.queued ++ b, emitted := s.emitted ++ [b] }
+  | .take => { s with sent := s.sent ++ s.queued, queued := [] }
+
+def sendRun (s : SendQ) (ops : List SendOp) : SendQ := ops.foldl sendStep s
+
+theorem sendRun_stream (ops : List SendOp) : ∀ s : SendQ, s.sent ++ s.queued = s.emitted.flatten →
+    (sendRun s ops).sent ++ (sendRun s ops).queued = (sendRun s ops).emitted.flatten := by
+  induction ops with
+  | nil => intro s h; exact h
+  | cons op ops ih =>
+    intro s h
+    apply ih
+    cases op with
+    | emit b => simp only [sendStep, List.flatten_append, List.flatten_cons, List.flatten_nil, List.append_nil, ← List.append_assoc, h]
+    | take => simpa [sendStep] using h
+
+theorem sendRun_emitted (ops : List SendOp) : ∀ s : SendQ,
+    (sendRun s ops).emitted = s.emitted ++ ops.filterMap (fun o => match o with | .emit b => some b | .take => none) := by
+  induction ops with
+  | nil => intro s; simp [sendRun]
+  | cons op ops ih =>
+    intro s
+    simp only [sendRun, List.foldl_cons] at ih ⊢
+    rw [ih]
+    cases op <;> simp [sendStep, List.filterMap_cons]
+
+/-- from the emitting goroutines to the receiving application's decoder: for every interleaving of emits (any number of goroutines, each
+    emit one well-formed block) with takes by the sender, what has gone out followed by what is still queued reassembles into exactly one
+    packet per emit, in the order of the add steps - nothing lost, duplicated, merged or split -/
+theorem emits_become_packets (J : Sio.Oracle) (maxAtt : Nat) (ops : List SendOp)
+    (hwf : ∀ o ∈ ops, ∀ b, o = SendOp.emit b → WfBlock J maxAtt b) :
+    feed J maxAtt none ((sendRun {} ops).sent ++ (sendRun {} ops).queued) =
+      (none, (ops.filterMap (fun o => match o with | .emit b => some b | .take => none)).length) := by
+  rw [sendRun_stream ops {} rfl, sendRun_emitted ops {}]
+  simp only [List.nil_append]
+  apply blocks_finish_in_order
+  intro b hb
+  obtain ⟨o, ho, hob⟩ := List.mem_filterMap.mp hb
+  cases o with
+  | emit b' => simp only [Option.some.injEq] at hob; subst hob; exact hwf _ ho _ rfl
+  | take => simp at hob
 
 /-! non-vacuity: BINARY_EVENT with one attachment followed by a text EVENT -/
 example : feed (fun t => if t = [34, 97, 34] then some [[97]] else none) 0 none
